@@ -674,4 +674,288 @@ end
     `K·rem + C` where `rem` is the input still unread when the length prefix has been read -/
 def Ev.bounded (K C : Nat) (e : Ev) : Bool := e.bytes ≤ K * e.rem + C
 
+/-! ## Derived / hand-written (de)serialisation of the `ark-poly` types (C18, appended)
+
+    /repo/poly/src/polynomial/univariate/dense.rs:21      `DensePolynomial { coeffs: Vec<F> }`
+    /repo/poly/src/polynomial/univariate/sparse.rs:21     `SparsePolynomial { coeffs: Vec<(usize, F)> }`
+    /repo/poly/src/polynomial/multivariate/mod.rs:56      `SparseTerm(Vec<(usize, usize)>)`
+    /repo/poly/src/polynomial/multivariate/sparse.rs:20   `SparsePolynomial { num_vars: usize, terms: Vec<(F, T)> }`
+    /repo/poly/src/evaluations/univariate/mod.rs:17       `Evaluations { evals: Vec<F>, domain: D }`
+    /repo/poly/src/evaluations/multivariate/multilinear/dense.rs:23    `{ evaluations: Vec<F>, num_vars: usize }`
+    /repo/poly/src/evaluations/multivariate/multilinear/sparse.rs:25   `{ evaluations: BTreeMap<usize, F>, num_vars: usize, zero: F }`
+    /repo/poly/src/domain/radix2/mod.rs:21, mixed_radix.rs:28          the nine fields `size: u64 … offset_pow_size: F`
+    /repo/poly/src/domain/general.rs:66-117               hand-written: `u8` tag 0 / 1, then the variant; `check` is `Ok(())`
+    /repo/ff/src/fields/models/fp/mod.rs                  `Fp`: `⌈MODULUS_BIT_SIZE / 8⌉` little-endian bytes, `≥ MODULUS` is `InvalidData`
+                                                          (minimal limb count, `EmptyFlags`: the reduced case of `Ark.Bytes.fpDeFlags`)
+
+  All of them are *derived* (`#[derive(CanonicalSerialize, CanonicalDeserialize)]`, which also emits `Valid`):
+  field after field, modes passed through, **no invariant of the type is looked at** — neither by
+  `deserialize_with_mode` (which never calls `Self::check`) nor by the derived `check` (which is `check` of
+  every field).  The universe `PTy` extends `Ty` by the prime-field leaf and re-declares the composite
+  constructors that can contain it; values stay in `Val` (`fp`: `.int x`; `gdom`: `.seq [.int tag, v]`). -/
+
+namespace Poly
+
+/-- the prime field of an op line (configurations with the minimal number of limbs) -/
+structure FCfg where
+  p : Nat
+  deriving Repr, DecidableEq, Inhabited
+
+/-- `MODULUS_BIT_SIZE` -/
+def FCfg.bits (F : FCfg) : Nat := if F.p = 0 then 0 else F.p.log2 + 1
+/-- `serialized_size_with_flags::<EmptyFlags>() = buffer_byte_size(MODULUS_BIT_SIZE)` -/
+def FCfg.width (F : FCfg) : Nat := (F.bits + 7) / 8
+
+inductive PTy
+  | old (t : Ty)                    -- a type of the first universe (`u64`, `u32`, `usize`, …)
+  | fp                              -- `Fp<P, N>`
+  | vec (esz : Nat) (t : PTy)       -- `Vec<T>`, `esz = size_of::<T>()`
+  | map (k v : PTy)                 -- `BTreeMap<K, V>`
+  | tup (ts : List PTy)             -- tuples; also `QuadExtField` / `CubicExtField` (coordinates in order, no flags)
+  | struct (fs : List PTy)          -- derived struct
+  | gdom (r m : PTy)                -- `GeneralEvaluationDomain`: `Radix2(r)` = tag 0, `MixedRadix(m)` = tag 1
+  | opt (t : PTy)                   -- `Option<T>`
+  | arr (n : Nat) (t : PTy)         -- `[T; N]`
+  | wrap (t : PTy)                  -- `Arc<T>` / `Cow<T>`: like the content
+  deriving Repr, Inhabited
+
+mutual
+/-- `serialize_with_mode` -/
+def pEncode (F : FCfg) : PTy → Compress → Val → Option (List Nat)
+  | .old t, c, v => encode t c v
+  | .fp, _, .int x =>                                             -- `serialize_with_flags(writer, EmptyFlags)`
+    if 0 ≤ x ∧ x.toNat < F.p then some (leBytes F.width x.toNat) else none
+  | .vec _ t, c, .seq vs => encSeq (fun v => pEncode F t c v) vs
+  | .map k v, c, .seq es =>
+    if sortedBy entryKey es then
+      (concatMapM (fun e => match e with
+          | .seq [a, b] =>
+            match pEncode F k c a, pEncode F v c b with
+            | some x, some y => some (x ++ y)
+            | _, _ => none
+          | _ => none) es).map (fun b => leBytes 8 es.length ++ b)
+    else none
+  | .tup ts, c, .seq vs => pEncodeAll F ts c vs
+  | .struct fs, c, .seq vs => pEncodeFields F fs c vs
+  | .gdom r m, c, .seq [.int tag, v] =>                           -- `variant.serialize_with_mode(..)?; domain.serialize_with_mode(..)`
+    if tag = 0 then (pEncode F r c v).map (fun b => 0 :: b)
+    else if tag = 1 then (pEncode F m c v).map (fun b => 1 :: b)
+    else none
+  | .opt _, _, .none => some [0]
+  | .opt t, c, .some v => (pEncode F t c v).map (fun b => 1 :: b)
+  | .arr n t, c, .seq vs => if vs.length = n then concatMapM (fun v => pEncode F t c v) vs else none
+  | .wrap t, c, v => pEncode F t c v
+  | _, _, _ => none
+def pEncodeAll (F : FCfg) : List PTy → Compress → List Val → Option (List Nat)
+  | [], _, [] => some []
+  | t :: ts, c, v :: vs =>
+    match pEncode F t c v, pEncodeAll F ts c vs with
+    | some a, some b => some (a ++ b)
+    | _, _ => none
+  | _, _, _ => none
+/-- derive macro: a field whose type is *written* as a tuple is flattened (same bytes as the tuple impl) -/
+def pEncodeFields (F : FCfg) : List PTy → Compress → List Val → Option (List Nat)
+  | [], _, [] => some []
+  | .tup us :: ts, c, .seq ws :: vs =>
+    match pEncodeFields F us c ws, pEncodeFields F ts c vs with
+    | some a, some b => some (a ++ b)
+    | _, _ => none
+  | t :: ts, c, v :: vs =>
+    match pEncode F t c v, pEncodeFields F ts c vs with
+    | some a, some b => some (a ++ b)
+    | _, _ => none
+  | _, _, _ => none
+end
+
+mutual
+/-- `serialized_size` -/
+def pSize (F : FCfg) : PTy → Compress → Val → Nat
+  | .old t, c, v => size t c v
+  | .fp, _, _ => F.width
+  | .vec _ t, c, .seq vs => 8 + sumMap (fun v => pSize F t c v) vs
+  | .map k v, c, .seq es =>
+    8 + sumMap (fun e => match e with
+      | .seq [a, b] => pSize F k c a + pSize F v c b
+      | _ => 0) es
+  | .tup ts, c, .seq vs => pSizeAll F ts c vs
+  | .struct fs, c, .seq vs => pSizeFields F fs c vs
+  | .gdom r m, c, .seq [.int tag, v] => 1 + (if tag = 0 then pSize F r c v else pSize F m c v)
+  | .opt _, _, .none => 1
+  | .opt t, c, .some v => 1 + pSize F t c v
+  | .arr _ t, c, .seq vs => sumMap (fun v => pSize F t c v) vs
+  | .wrap t, c, v => pSize F t c v
+  | _, _, _ => 0
+def pSizeAll (F : FCfg) : List PTy → Compress → List Val → Nat
+  | t :: ts, c, v :: vs => pSize F t c v + pSizeAll F ts c vs
+  | _, _, _ => 0
+def pSizeFields (F : FCfg) : List PTy → Compress → List Val → Nat
+  | .tup us :: ts, c, .seq ws :: vs => pSizeFields F us c ws + pSizeFields F ts c vs
+  | t :: ts, c, v :: vs => pSize F t c v + pSizeFields F ts c vs
+  | _, _, _ => 0
+end
+
+mutual
+/-- `Valid::check`: `Fp::check` is `Ok(())`, containers / derived structs forward to their parts,
+    `GeneralEvaluationDomain::check` is the hand-written `Ok(())` -/
+def pCheck : PTy → Val → Bool
+  | .old t, v => check t v
+  | .fp, _ => true
+  | .vec _ t, .seq vs => vs.all (fun v => pCheck t v)
+  | .map k v, .seq es =>
+    es.all (fun e => match e with | .seq [a, _] => pCheck k a | _ => true) &&
+    es.all (fun e => match e with | .seq [_, b] => pCheck v b | _ => true)
+  | .tup ts, .seq vs => pCheckAll ts vs
+  | .struct fs, .seq vs => pCheckFields fs vs
+  | .gdom _ _, _ => true
+  | .opt t, .some v => pCheck t v
+  | .arr _ t, .seq vs => vs.all (fun v => pCheck t v)
+  | .wrap t, v => pCheck t v
+  | _, _ => true
+def pCheckAll : List PTy → List Val → Bool
+  | t :: ts, v :: vs => pCheck t v && pCheckAll ts vs
+  | _, _ => true
+def pCheckFields : List PTy → List Val → Bool
+  | .tup us :: ts, .seq ws :: vs => pCheckFields us ws && pCheckFields ts vs
+  | t :: ts, v :: vs => pCheck t v && pCheckFields ts vs
+  | _, _ => true
+end
+
+mutual
+def pZeroWidth : PTy → Bool
+  | .old t => zeroWidth t
+  | .tup ts => pZeroWidthAll ts
+  | .struct fs => pZeroWidthAll fs
+  | .arr n t => n = 0 || pZeroWidth t
+  | .wrap t => pZeroWidth t
+  | _ => false
+def pZeroWidthAll : List PTy → Bool
+  | [] => true
+  | t :: ts => pZeroWidth t && pZeroWidthAll ts
+end
+
+/-- `Fp::deserialize_with_mode` = `deserialize_with_flags::<_, EmptyFlags>`: `read_exact` of the
+    advertised size, then `from_bigint` (zero, else `None` when `≥ MODULUS`) -/
+def decFp (F : FCfg) : M Val := do
+  let bs ← readExact F.width
+  let n := leValue bs
+  if n ≥ F.p then failM (.err .invalid) else pure (.int n)
+
+mutual
+/-- `deserialize_with_mode` -/
+def pDecode (L : Limits) (F : FCfg) : PTy → Compress → Validate → M Val
+  | .old t, c, v => decode L t c v
+  | .fp, _, _ => decFp F
+  | .vec esz t, c, v => do
+    let len ← decU 8
+    if len ≥ 2 ^ 64 then failM (.err .notenough)
+    withCapacity L (cappedCapacity esz len) esz
+    let vs ← loopM L (pZeroWidth t) (pDecode L F t c .no) len
+    batchM v (vs.all (fun x => pCheck t x))
+    pure (.seq vs)
+  | .map k vt, c, v => do
+    let len ← decU 8
+    let es ← loopM L (pZeroWidth k && pZeroWidth vt) (do
+      let a ← pDecode L F k c v
+      let b ← pDecode L F vt c v
+      pure (.seq [a, b])) len
+    pure (.seq (fromIter entryKey es))
+  | .tup ts, c, v => do
+    let vs ← pDecodeAll L F ts c v
+    pure (.seq vs)
+  | .struct fs, c, v => do
+    let vs ← pDecodeFields L F fs c v
+    pure (.seq vs)
+  | .gdom r m, c, v => do
+    let tag ← decU 1                                   -- `u8::deserialize_with_mode`
+    if tag = 0 then do
+      let d ← pDecode L F r c v
+      pure (.seq [.int 0, d])
+    else if tag = 1 then do
+      let d ← pDecode L F m c v
+      pure (.seq [.int 1, d])
+    else failM (.err .invalid)
+  | .opt t, c, v => do
+    let isSome ← decBool
+    if isSome then do
+      let x ← pDecode L F t c v
+      pure (.some x)
+    else pure .none
+  | .arr n t, c, v => do
+    let vs ← repeatM (pDecode L F t c .no) n
+    batchM v (vs.all (fun x => pCheck t x))
+    pure (.seq vs)
+  | .wrap t, c, v => pDecode L F t c v
+def pDecodeAll (L : Limits) (F : FCfg) : List PTy → Compress → Validate → M (List Val)
+  | [], _, _ => pure []
+  | t :: ts, c, v => do
+    let x ← pDecode L F t c v
+    let xs ← pDecodeAll L F ts c v
+    pure (x :: xs)
+def pDecodeFields (L : Limits) (F : FCfg) : List PTy → Compress → Validate → M (List Val)
+  | [], _, _ => pure []
+  | .tup us :: ts, c, v => do
+    let x ← pDecodeFields L F us c v
+    let xs ← pDecodeFields L F ts c v
+    pure (.seq x :: xs)
+  | t :: ts, c, v => do
+    let x ← pDecode L F t c v
+    let xs ← pDecodeFields L F ts c v
+    pure (x :: xs)
+end
+
+def pRunDecode (L : Limits) (F : FCfg) (t : PTy) (c : Compress) (v : Validate) (bs : List Nat) : R Val :=
+  pDecode L F t c v { inp := bs }
+
+mutual
+/-- unique encoding (maps are not: any order / repeated keys are accepted) -/
+def pCanonical : PTy → Bool
+  | .old t => canonical t
+  | .map _ _ => false
+  | .vec _ t => pCanonical t
+  | .tup ts => pCanonicalAll ts
+  | .struct fs => pCanonicalAll fs
+  | .gdom r m => pCanonical r && pCanonical m
+  | .fp => true
+  | .opt t => pCanonical t
+  | .arr _ t => pCanonical t
+  | .wrap t => pCanonical t
+def pCanonicalAll : List PTy → Bool
+  | [] => true
+  | t :: ts => pCanonical t && pCanonicalAll ts
+end
+
+mutual
+/-- construction form → value (maps given as insertion sequences) -/
+def pBuild : PTy → Val → Val
+  | .old t, v => build t v
+  | .vec _ t, .seq vs => .seq (vs.map (fun v => pBuild t v))
+  | .map k v, .seq es =>
+    .seq (fromIter entryKey (es.map (fun e => match e with
+      | .seq [a, b] => .seq [pBuild k a, pBuild v b]
+      | x => x)))
+  | .tup ts, .seq vs => .seq (pBuildAll ts vs)
+  | .struct fs, .seq vs => .seq (pBuildAll fs vs)
+  | .gdom r m, .seq [.int tag, v] => .seq [.int tag, if tag = 0 then pBuild r v else pBuild m v]
+  | .opt t, .some v => .some (pBuild t v)
+  | .arr _ t, .seq vs => .seq (vs.map (fun v => pBuild t v))
+  | .wrap t, v => pBuild t v
+  | _, v => v
+def pBuildAll : List PTy → List Val → List Val
+  | t :: ts, v :: vs => pBuild t v :: pBuildAll ts vs
+  | _, vs => vs
+end
+
+end Poly
+
+/-! ## Writers and readers that fail (C18, appended)
+
+`impls.rs` propagates every writer error with `?`: a serialisation into a writer that accepts `k`
+bytes in total and then fails (with an error, or with `Ok(0)`, which `write_all` turns into
+`WriteZero`) has written exactly the first `min k (len)` bytes of the encoding and returns
+`IoError` iff `k < len`.  Likewise a reader that supplies `k` bytes and then fails (any
+`io::Error` other than `Interrupted`, which `read_exact` retries) behaves like the `k`-byte prefix. -/
+
+/-- bytes handed to the writer, and whether `serialize_with_mode` returned `Err(IoError)` -/
+def encodeInto (k : Nat) (bytes : List Nat) : List Nat × Bool := (bytes.take k, k < bytes.length)
+
 end Ark.Serial
